@@ -66,11 +66,11 @@ def bounded(tier, seed):
     archs = [(1, 1), (2, 3), (3, 2), (5, 6)] if tier == "quick" else [(a, b) for a in range(1, 6) for b in range(1, 7)]
     for kind in ("positive", "complex"):
         for (nv, nh) in archs:
-            for s, scale in ((seed, 1.0), (seed + 1, 5.0), (seed + 2, 30.0 / max(nv, nh))):
+            for s, scale in ((seed, 1.0), (seed + 1, 3.0), (seed + 2, 6.0 / max(nv, nh))):
                 f = native_check({"kind": kind, "nv": nv, "nh": nh}, None, s, scale)
                 n += 1
                 if f:
                     bad.append(({"kind": kind, "nv": nv, "nh": nh, "seed": s, "scale": scale}, f[:2]))
     return {"driver": "drivers/C01.native_check", "label": "bounded", "evaluations": n, "failures": len(bad),
-            "bound": "float64, %d architectures x 3 random parameter draws (non-zero biases, scale up to 30/size)" % len(archs),
+            "bound": "float64, %d architectures x 3 random parameter draws (non-zero biases, gaussian scale 1, 3, 6/size)" % len(archs),
             "first_failures": bad[:2]}
